@@ -5,6 +5,7 @@ LS reply; re-encoding by the TSB/GBC/GAC/GUC/LS forwarders) and of `flexstack.bt
 deviations that the repository's own tests pin are carried as Boolean variants (known findings):
   C02-KF1  `CommonHeader.initialize_beacon` writes `itsGnIsMobile.value` (bit 7 = LSB) instead of `<< 7`
   C02-KF2  the source operations write version 1 instead of `itsGnProtocolVersion`
+  C02-KF3  a SECURED packet (basic-header NH = 2) is forwarded WITHOUT its security envelope (`forwardSecured`)
 -/
 import FlexModel.Wire.Headers
 
@@ -82,7 +83,9 @@ def beaconPacket (v : Variant) (mib : Mib) (ego : LongPV) : Except Err Bytes :=
 def shbPacket (v : Variant) (mib : Mib) (r : Request) (ego : LongPV) : Except Err Bytes :=
   cat3 (srcBasic v mib r.lifetimeMs 1).encode (commonOfRequest r mib).encode ego.encode ([0, 0, 0, 0] ++ r.data)
 
-/-- hop limit selection of the multi-hop source operations -/
+/-- hop limit selection of the multi-hop source operations:
+`hop_limit = self.mib.itsGnDefaultHopLimit if request.max_hop_limit <= 1 else request.max_hop_limit` (router.py, GBC/GAC and
+GUC source operations).  Implementation side only: the Spec side of Props/C02.lean uses `LTSpec.hopLimit`. -/
 def srcHopLimit (mib : Mib) (r : Request) : Nat := if r.maxHopLimit ≤ 1 then mib.defaultHopLimit else r.maxHopLimit
 
 /-- `gn_data_request_gbc` / `gn_data_request_gac` (no DENM security profile) -/
@@ -108,7 +111,9 @@ def lsReplyPacket (v : Variant) (mib : Mib) (sn : Nat) (ego : LongPV) (de : Shor
   cat3 (srcBasic v mib none mib.defaultHopLimit).encode (commonLS mib LocationServiceHST_LS_REPLY).encode
     (GUCExt.encode { sn, reserved := 0, soPv := ego, dePv := de }) []
 
-/-- `BasicHeader.set_rhl(rhl - 1)` : Python `(rhl - 1) % 256` -/
+/-- `basic_header.set_rhl(basic_header.rhl - 1)` : Python `(rhl - 1) % 256` (bridged to the extracted `set_rhl` in
+Props/C02BridgeBasic.lean).  Every forwarder calls it only behind `new_rhl > 0`, i.e. for RHL ≥ 2 (`forwardPacket`),
+where it is `rhl - 1` (`decRhl_rhl`); the wrap 0 ↦ 255 is unreachable since `C06-gac-rhl-zero`. -/
 def decRhl (h : BasicHeader) : BasicHeader := { h with rhl := (h.rhl + 255) % 256 }
 
 /-- extended header length for a (decoded) common header; `none` for types the forwarders do not handle -/
@@ -120,18 +125,24 @@ def extLen (ht hst : Nat) : Option Nat :=
   else if ht = HeaderType_LS ∧ hst = LocationServiceHST_LS_REPLY then some 48
   else none
 
-/-- re-encoding of the decoded extended header by the forwarders (decode, then `encode()`) -/
-def reencodeExt (ht : Nat) (ext : Bytes) : Except Err Bytes :=
-  if ht = HeaderType_GEOUNICAST then do let h ← GUCExt.decode ext; h.encode
+/-- GUC / LS-reply forwarder, step 8 of §10.3.8.3: `with_de_pv(updated_de_pv)` when the location table holds a
+strictly newer PV of a NEIGHBOUR destination (`refresh = some pv`; which PV, if any, is the location table's business:
+C06 `forward_is_copy`, C08); otherwise the DE PV of the packet is kept -/
+def GUCExt.refreshed (h : GUCExt) (refresh : Option ShortPV) : GUCExt := { h with dePv := refresh.getD h.dePv }
+
+/-- re-encoding of the decoded extended header by the forwarders (decode, [refresh DE PV,] then `encode()`) -/
+def reencodeExt (ht : Nat) (refresh : Option ShortPV) (ext : Bytes) : Except Err Bytes :=
+  if ht = HeaderType_GEOUNICAST then do let h ← GUCExt.decode ext; (h.refreshed refresh).encode
   else if ht = HeaderType_GEOANYCAST ∨ ht = HeaderType_GEOBROADCAST then do let h ← GBCExt.decode ext; h.encode
   else if ht = HeaderType_TSB then do let h ← TSBExt.decode ext; h.encode
   else if ext.length = 36 then do let h ← LSReqExt.decode ext; h.encode
-  else do let h ← GUCExt.decode ext; h.encode
+  else do let h ← GUCExt.decode ext; (h.refreshed refresh).encode
 
-/-- what a forwarder puts on the wire for a received packet `pkt` when it forwards it unchanged
-(`gn_data_indicate_tsb/gbc/gac/guc/ls_request/ls_reply`): headers decoded, RHL decremented, all headers
-re-encoded, payload appended.  (Whether it forwards at all is C06's subject.) -/
-def forwardPacket (pkt : Bytes) : Except Err Bytes := do
+/-- what a forwarder puts on the wire for a received packet `pkt` when its forwarding algorithm decides to forward
+(`gn_data_indicate_tsb/gbc/gac/guc/ls_request/ls_reply`): headers decoded, [DE PV refreshed,] and — only if the
+received RHL is at least 2 (`new_rhl > 0`) — RHL decremented, all headers re-encoded, payload appended; `none` = nothing
+is sent (hop limit exhausted).  (Whether the algorithm forwards at all is C06's subject.) -/
+def forwardPacket (refresh : Option ShortPV) (pkt : Bytes) : Except Err (Option Bytes) := do
   let bh ← BasicHeader.decode (slice pkt 0 4)
   let rest := pkt.drop 4
   let ch ← CommonHeader.decode (slice rest 0 8)
@@ -139,10 +150,31 @@ def forwardPacket (pkt : Bytes) : Except Err Bytes := do
   match extLen ch.ht ch.hst with
   | none => .error .value
   | some n =>
-    let b ← (decRhl bh).encode
-    let c ← ch.encode
-    let e ← reencodeExt ch.ht (slice rest 0 n)
-    return b ++ c ++ e ++ rest.drop n
+    let e ← reencodeExt ch.ht refresh (slice rest 0 n)
+    if bh.rhl ≤ 1 then return none
+    else
+      let b ← (decRhl bh).encode
+      let c ← ch.encode
+      return some (b ++ c ++ e ++ rest.drop n)
+
+/-- forwarding of a SECURED packet (basic-header NH = 2; `Router.process_security_header`).  `plain` is
+`verify_confirm.plain_message` = common header ‖ extended header ‖ payload as released by the verify service (C03); the
+code dispatches it to the ordinary handlers with the basic header's NH rewritten to COMMON_HEADER
+(`basic_header.set_nh(BasicNH.COMMON_HEADER)`), so whether and what the forwarder sends is `forwardPacket` on that.
+`envelopeKept = false` = the code as it is (known finding C02-KF3): what goes on the wire is that unsecured re-assembly —
+signature, signer certificate/digest and generation time are stripped and the packet leaves with NH = 1.
+`envelopeKept = true` = the repaired behaviour: the secured message behind the basic header is forwarded untouched; the
+basic header (which the signature does not cover, precisely so that forwarders can do this) gets RHL − 1. -/
+def forwardSecured (envelopeKept : Bool) (refresh : Option ShortPV) (pkt plain : Bytes) : Except Err (Option Bytes) := do
+  let bh ← BasicHeader.decode (slice pkt 0 4)
+  let inner ← forwardPacket refresh (toBytesBE 4 ({ bh with nh := BasicNH_COMMON_HEADER } : BasicHeader).encodeInt ++ plain)
+  match inner with
+  | none => return none
+  | some out =>
+    if envelopeKept then do
+      let b ← (decRhl bh).encode
+      return some (b ++ pkt.drop 4)
+    else return some out
 
 /-- `btp.router.Router.btp_data_request`: BTP header octets in front of the payload;
 GN request `length = len(data)` -/
